@@ -565,6 +565,27 @@ def _model_inputs(mod):
             "sig": sig}
 
 
+def h_variable_info(c):
+    """lcm.input_processing.util.get_variable_info on a user model, with the declarations and what dags reports about them"""
+    from dags import get_ancestors
+    from lcm.grids import ContinuousGrid
+    from lcm.input_processing.util import get_variable_info, get_function_info, _get_auxiliary_variables
+    model = _build_model(c)
+    vi = get_variable_info(model)
+    cols = ["is_state", "is_choice", "is_continuous", "is_discrete", "is_stochastic", "is_auxiliary", "is_sparse", "is_dense"]
+    fi = get_function_info(model)
+    filtered = set()
+    for name in fi.query("is_filter").index.tolist():
+        filtered.update(get_ancestors(model.functions, name))
+    aux = _get_auxiliary_variables(state_variables=list(model.states), function_info=fi, user_functions=model.functions)
+    return {"rows": [[str(n), [bool(vi.loc[n, k]) for k in cols]] for n in vi.index],
+            "inputs": {"states": [[str(k), isinstance(v, ContinuousGrid)] for k, v in model.states.items()],
+                       "choices": [[str(k), isinstance(v, ContinuousGrid)] for k, v in model.choices.items()],
+                       "stochastic_next": [str(n) for n in fi.index if bool(fi.loc[n, "is_stochastic_next"])],
+                       "auxiliary_variables": sorted(str(x) for x in aux),
+                       "filtered_variables": sorted(str(x) for x in filtered)}}
+
+
 def h_filter_mask(c):
     """lcm.state_space.create_filter_mask on a processed model, with the inputs it read off the model"""
     from lcm.input_processing import process_model
